@@ -787,9 +787,10 @@ public:
 class ValDecl : public Decl {
   std::unique_ptr<Expr> expr;
   int exprValue;
+  bool valueSet;
 public:
   ValDecl(Location location, std::string name, std::unique_ptr<Expr> expr) :
-      Decl(location, name), expr(std::move(expr)) {}
+      Decl(location, name), expr(std::move(expr)), exprValue(0), valueSet(false) {}
   virtual void accept(AstVisitor *visitor) override {
     visitor->visitPre(*this);
     expr->accept(visitor);
@@ -797,8 +798,9 @@ public:
     visitor->visitPost(*this);
   }
   Expr *getExpr() const { return expr.get(); }
+  bool hasValue() const { return valueSet; }
   int getValue() const { return exprValue; }
-  void setValue(int value) { exprValue = value; }
+  void setValue(int value) { exprValue = value; valueSet = true; }
 };
 
 class VarDecl : public Decl {
@@ -1902,6 +1904,9 @@ public:
     auto symbol = symbolTable.lookup(std::make_pair(getCurrentScope(), expr.getName()),
                                      expr.getLocation());
     if (auto symbolExpr = dynamic_cast<const ValDecl*>(symbol->getNode())) {
+      if (!symbolExpr->hasValue()) {
+        throw Error(expr.getLocation(), "val " + expr.getName() + " is used before its declaration");
+      }
       expr.setValue(symbolExpr->getValue());
     }
   }
